@@ -67,6 +67,12 @@ func c01Corpus() []c01issCase {
 		{Threads: []c01issThread{th("handshake", c01nmUni), th("manage", c01nmPuny), th("obtain", c01nmPuny)}, Policy: "seq", Pause: map[string]string{"0": "IssueEnd:"}, Class: "generic"},
 		{Threads: []c01issThread{th("handshake", c01nmCanon), th("obtain", c01nmCanon)}, Seeds: []c01issSeed{{c01nmCanon, "fresh"}}, Policy: "rr", Class: "generic"},
 		{Threads: []c01issThread{th("manage", c01nmCanon), th("handshake", c01nmCanon)}, Policy: "seq", Pause: map[string]string{"0": "Store:.crt"}, Backend: "file", Class: "generic"},
+		// configs sharing the storage whose issuer lists differ (B's preferred issuer declines, it falls through to the
+		// issuer A uses): still one lock per name, one order, one certificate
+		{Threads: []c01issThread{th("obtain", c01nmCanon), {Prog: "obtain", Name: c01nmCanon, Decliner: true}}, Policy: "seq", Pause: map[string]string{"0": "IssueEnd:"}, Class: "generic"},
+		{Threads: []c01issThread{{Prog: "manage", Name: c01nmCanon, Decliner: true}, th("manage", c01nmCanon), th("obtain", c01nmCanon)}, Policy: "seq", Pause: map[string]string{"0": "IssueEnd:"}, Class: "generic"},
+		{Threads: []c01issThread{th("renew", c01nmCanon), {Prog: "renew", Name: c01nmCanon, Decliner: true}, {Prog: "manage", Name: c01nmCanon, Decliner: true}}, Seeds: []c01issSeed{{c01nmCanon, "due"}}, Policy: "seq", Pause: map[string]string{"0": "IssueEnd:"}, Class: "generic"},
+		{Threads: []c01issThread{{Prog: "obtain", Name: c01nmCanon, Decliner: true}, th("manage", c01nmCanon)}, Policy: "rr", Backend: "file", Class: "generic"},
 		// a request reaches the lock with a context that ends at that very moment; the Locker grants the free lock
 		// all the same (FileStorage looks at the context only while it waits): the request fails, releases, and the
 		// next request for the name takes its turn -- it must not find the lock held for ever
@@ -124,6 +130,11 @@ func c01Emit(w *emit.Writer, cs c01issCase, o *c01issObs) {
 	}
 	w.Hist("programs=" + c01issProgKey(cs))
 	w.Hist(fmt.Sprintf("threads=%d", len(cs.Threads)))
+	for _, t := range cs.Threads {
+		if t.Decliner {
+			w.Hist("instance_with_declining_first_issuer=1")
+		}
+	}
 	w.Hist("policy=" + cs.Policy)
 	w.Hist(fmt.Sprintf("faults=%d", len(cs.Faults)))
 	for _, s := range o.Steps {
@@ -186,6 +197,7 @@ func c01Random(r *rand.Rand, tier string) c01issCase {
 		}
 		t.Reuse = r.Intn(4) == 0
 		t.NoChk = r.Intn(3) == 0
+		t.Decliner = !t.Async && r.Intn(8) == 0 // no faults of its own are injected into such an instance (hook)
 		t.IssDue = r.Intn(8) == 0
 		cs.Threads = append(cs.Threads, t)
 	}
@@ -224,7 +236,7 @@ func c01Random(r *rand.Rand, tier string) c01issCase {
 	if !spelling && cs.Class == "generic" && r.Intn(12) == 0 {
 		var cand []int
 		for i, t := range cs.Threads {
-			if !t.Async && t.Prog != "handshake" {
+			if !t.Async && t.Prog != "handshake" && !t.Decliner {
 				cand = append(cand, i)
 			}
 		}
